@@ -264,6 +264,8 @@ def param_sync_rule(prog, res):
                 o = R.render(f.call_obj(n))
                 if not o.startswith('local:'):
                     continue
+                if o not in {a_[1] for v_ in sets.values() for a_ in v_ if a_[2] is f}:
+                    continue      # only lists that are stored with set()
                 fs = enclosing_fors(f, n['id'])
                 lf = normal_for(f, fs[0]) if fs else None
                 inst = 'list %s has one entry per element' % o[6:]
